@@ -190,6 +190,8 @@ impl Edge {
     /// write the edge
     ///
     pub fn write(&self, conn: &Connection) -> std::result::Result<(), rusqlite::Error> {
+        #[cfg(feature = "verif")]
+        crate::verif_hooks::failpoint_err("edge_write")?;
         let mut insert_stmt = conn.prepare_cached(
             "INSERT OR REPLACE INTO _edge (src, src_entity, label, dest, cdate, verifying_key, signature) 
                             VALUES (?, ?, ?, ?, ?, ?, ?)",
